@@ -175,6 +175,14 @@ theorem exec_inv : ∀ (f : Nat) (t : Task) (w : World), Inv w.c → RInv (exec 
               intro w1 v h1; exact h1
             · exact hw
           | nop => exact hw
+          | ret0 => exact hw
+          | ra a verb =>
+            try simp only
+            split
+            · exact hw
+            · refine ite_inv (crashR_inv hw) ?_
+              refine ite_inv ?_ (by exact hw)
+              exact sentOnly_inv (eraseSent_sentOnly _ _ _) hw
           | obf =>
             try simp only
             refine ite_inv (crashR_inv hw) ?_
@@ -411,10 +419,20 @@ theorem exec_inv : ∀ (f : Nat) (t : Task) (w : World), Inv w.c → RInv (exec 
       refine ite_inv (crashR_inv hw) ?_
       refine ite_inv (by exact hw) ?_
       refine ite_inv (by exact hw) ?_
+      refine andThen_inv (ih _ _ (by exact hw)) ?_
+      intro w1 v h1; exact h1
+    | cmdloop a verb rest saveIsa =>
+      simp only [exec]
       split
       · exact hw
-      · refine andThen_inv (ih _ _ (by exact hw)) ?_
-        intro w1 v h1; exact h1
+      · refine ite_inv (ih _ _ hw) ?_
+        refine andThen_inv (ih _ _ hw) ?_
+        intro w1 v h1
+        refine ite_inv (by exact h1) ?_
+        refine ite_inv (by exact h1) ?_
+        refine ite_inv (raise_inv (by exact h1)) ?_
+        refine ite_inv (raise_inv (by exact h1)) ?_
+        exact ih _ _ (by exact h1)
     | destruct ob =>
       simp only [exec]
       refine ite_inv (raise_inv hw) ?_
